@@ -2,6 +2,7 @@ import SpoxModel.Lemmas.Opset
 import SpoxModel.Lemmas.OpsetRename
 import SpoxModel.Lemmas.OpsetFuncs
 import SpoxModel.Lemmas.OpsetNames
+import SpoxModel.Lemmas.OpsetMerge
 /-!
 # C09 — one opset per domain; mixed-version programs build and keep their meaning
 
@@ -254,7 +255,7 @@ theorem node_valid_at_import_partial (g : PGraph) (e : Entry)
   | internal => simp [entryValid, PNode.kind]
   | intro => simp [entryValid, PNode.kind]
   | introOpt => simp [entryValid, PNode.kind]
-  | func d v => simp [entryValid, PNode.kind]
+  | func d v nm => simp [entryValid, PNode.kind]
 
 /-- The decision itself never fails (`opsets[domain]` is always present) for shipped constructors. -/
 theorem decision_total (g : PGraph) (e : Entry) (he : e ∈ (buildModel genFacts g).main)
@@ -284,7 +285,7 @@ theorem decision_total (g : PGraph) (e : Entry) (he : e ∈ (buildModel genFacts
   | internal => simp [adaptBestEffort]
   | intro => simp [adaptBestEffort]
   | introOpt => simp [adaptBestEffort]
-  | func d v => simp [adaptBestEffort]
+  | func d v nm => simp [adaptBestEffort]
 
 /-- A shipped constructor is sent to the converter only when the schema in force at the imported
     version is not the one it was written for, and then with exactly the import as target. -/
@@ -342,7 +343,7 @@ theorem convert_only_when_needed (g : PGraph) (e : Entry) (he : e ∈ (buildMode
   | internal => simp [adaptBestEffort] at hc
   | intro => simp [adaptBestEffort] at hc
   | introOpt => simp [adaptBestEffort] at hc
-  | func d v => simp [adaptBestEffort] at hc
+  | func d v nm => simp [adaptBestEffort] at hc
 
 /-! ## inlined models: conversion is decided by the default domain alone -/
 
@@ -423,7 +424,7 @@ theorem inline_target_is_import (g : PGraph) (e : Entry) (he : e ∈ (buildModel
   | internal => simp [adaptBestEffort] at hc
   | intro => simp [adaptBestEffort] at hc
   | introOpt => simp [adaptBestEffort] at hc
-  | func d v => simp [adaptBestEffort] at hc
+  | func d v nm => simp [adaptBestEffort] at hc
 
 /-! ## nothing is remembered between builds (tie G inventory) -/
 
@@ -463,6 +464,35 @@ theorem adapted_names_deterministic (q : Bool) (nOut : Nat → Nat) (conv : Nat 
     (h : es₁.map Entry.key = es₂.map Entry.key) :
     allNames q nOut conv es₁ = allNames q nOut conv es₂ :=
   allNames_key q nOut conv es₁ es₂ h
+
+/-! ## one FunctionProto per (domain, name) -/
+
+/-- Equal keys, equal function graphs ⇒ equal definitions (imports, and opsets and decision node by node). -/
+theorem occurrences_consistent (extra : List Req) (g : PGraph)
+    (h : Consistent ((funcKeysOfGraph g).zip (funcsOfGraph g))) :
+    Consistent (funcOccurrences genFacts extra g) := by
+  intro a ha b hb hk
+  simp only [funcOccurrences, buildModelWith, List.map_map, List.zip_map_right, List.mem_map] at ha hb
+  obtain ⟨x, hx, rfl⟩ := ha
+  obtain ⟨y, hy, rfl⟩ := hb
+  have := h x hx y hy hk
+  simp only [Prod.map, id, Function.comp] at hk ⊢
+  rw [this]
+
+/-- The loop of `to_onnx_model` over the functions of a build: when every application of a function yields the
+    same function graph (instances are compiled in scopes of their own) and different functions have different
+    (domain, name) keys, it never raises "two different definitions", emits every key exactly once and emits
+    exactly the definitions that occur. -/
+theorem functions_merge (extra : List Req) (g : PGraph)
+    (h : Consistent ((funcKeysOfGraph g).zip (funcsOfGraph g))) :
+    ∃ r, emittedFunctions genFacts extra g = some r ∧ (r.map (·.1)).Nodup ∧
+      ∀ a, a ∈ r ↔ a ∈ funcOccurrences genFacts extra g :=
+  mergeFuncs_ok _ (occurrences_consistent extra g h)
+
+/-- …and it raises only when two occurrences of one key really carry different definitions. -/
+theorem functions_conflict_is_real (extra : List Req) (g : PGraph)
+    (h : emittedFunctions genFacts extra g = none) : ¬ Consistent (funcOccurrences genFacts extra g) :=
+  mergeFuncs_none _ h
 
 /-- `_adapt.py` and `_graph.py` keep no state that outlives a build (and the other files a build passes through no
     mutable default argument, caching decorator or `global`): no module-level binding, no `global`,
@@ -574,7 +604,7 @@ example : (buildModel genFacts (renameG (· + 100) mixedExample)).main.map (·.n
 
 /-- a function whose body uses `ml3.label_encoder`, next to `ml4.label_encoder` and a v18 reduction -/
 def funcExample : PGraph :=
-  .mk [.mk (.func "spox.verif" 0) 1 true
+  .mk [.mk (.func "spox.verif" 0 "f") 1 true
          [.mk [.mk (.op "ai.onnx.ml" ((Generated.OpsetFacts.opNames.idxOf? ("ai.onnx.ml", "LabelEncoder")).getD 0) 2) 1 true [] 2]] 1,
        .mk (.op "ai.onnx.ml" ((Generated.OpsetFacts.opNames.idxOf? ("ai.onnx.ml", "LabelEncoder")).getD 0) 4) 1 true [] 3,
        .mk (.op "" (opNo "ReduceMax") 18) 1 true [] 4]
@@ -583,6 +613,24 @@ example : (buildModel genFacts funcExample).imports = [("", 18), ("ai.onnx.ml", 
     (buildModel genFacts funcExample).funcs.map (·.1) = [[("", 18), ("ai.onnx.ml", 4), ("spox.verif", 0)]] ∧
     (buildModel genFacts funcExample).funcs.map (fun f => f.2.map (·.decision)) = [[.keepNonDefault 2 4]] := by
   decide +kernel
+
+/-- one function (v17 `ReduceMean` with `axes` inside) applied twice — main graph and an If body — under a v21 Identity:
+    one definition is emitted, its node converted to 21; the same key with another body is a conflict -/
+def twiceExample (second : Nat) : PGraph :=
+  .mk [.mk (.func "spox.verif" 0 "f") 1 true [.mk [.mk (.op "" (opNo "ReduceMean") 13) 1 true [] 1]] 1,
+       .mk (.op "" (opNo "If") 16) 1 true
+         [.mk [.mk (.func "spox.verif" 0 "f") 1 true [.mk [.mk (.op "" (opNo "ReduceMean") second) 1 true [] 1]] 2],
+          .mk [.mk (.op "" (opNo "Neg") 13) 1 true [] 3]] 4,
+       .mk (.op "" (opNo "Identity") 21) 1 true [] 5]
+
+example : funcKeysOfGraph (twiceExample 13) = [("spox.verif", "f"), ("spox.verif", "f")] := by decide +kernel
+example : (emittedFunctions genFacts [] (twiceExample 13)).map (fun r => r.map (fun p => p.1.2)) = some ["f"] := by
+  decide +kernel
+example : (emittedFunctions genFacts [] (twiceExample 13)).map (fun r => r.map (fun p => p.2.1)) =
+    some [[("", 21), ("spox.verif", 0)]] := by decide +kernel
+example : (emittedFunctions genFacts [] (twiceExample 13)).map (fun r => r.map (fun p => p.2.2.map (·.2))) =
+    some [[.convert 13 21]] := by decide +kernel
+example : (emittedFunctions genFacts [] (twiceExample 18)).isNone = true := by decide +kernel
 
 /-- a legacy opset-11 model importing ai.onnx.ml 1 and a custom domain 2, next to an ml4 LabelEncoder, another
     legacy model asking for the custom domain at 3, and a v21 Identity: both inlined models are converted to 21 -/
